@@ -4,6 +4,8 @@ CONSTANTS
   MaxOps = 5
   Mode = "share"
   NP = 6
+  Terminals = {"text"}
+  NonTerminals = {"pagecount"}
 INVARIANTS DeriveIsPure OneOwner QuiescentReleased
 PROPERTY SelectionIsStable
 CHECK_DEADLOCK FALSE
